@@ -32,6 +32,10 @@ var reqToken = message.Token{0xa1, 0xb2}
 // (randomly seeded) message-ID counter happens to produce the same value for an unrelated message
 var reqMID int32 = 0x1234
 
+// handlerMutates: option numbers the handler inserts into ITS request object before calling SetResponse (a handler may
+// normalise or annotate the request it was given; that must not change what the requester asked to suppress)
+var handlerMutates []message.OptionID
+
 func typeName(t message.Type) string {
 	switch t {
 	case message.Confirmable:
@@ -94,6 +98,9 @@ func srvUDPOnce(t *testing.T, con bool, v int64, code codes.Code, coincidence *b
 		set := "nocall"
 		cc, s := mem.NewUDPConn(mem.UDPOpts{Mutate: func(cfg *udpclient.Config) {
 			cfg.Handler = func(w *responsewriter.ResponseWriter[*udpclient.Conn], r *pool.Message) {
+				for _, id := range handlerMutates {
+					r.SetOptionBytes(id, []byte{0x68, byte(id)})
+				}
 				if err := w.SetResponse(code, message.TextPlain, nil); err != nil {
 					set = "refused"
 				} else {
@@ -136,6 +143,9 @@ func srvTCP(t *testing.T, v int64, code codes.Code, extra ...message.OptionID) (
 		set := "nocall"
 		cc, peer, err := mem.NewTCPConn(mem.TCPOpts{Mutate: func(cfg *tcpclient.Config) {
 			cfg.Handler = func(w *responsewriter.ResponseWriter[*tcpclient.Conn], r *pool.Message) {
+				for _, id := range handlerMutates {
+					r.SetOptionBytes(id, []byte{0x68, byte(id)})
+				}
 				if err := w.SetResponse(code, message.TextPlain, nil); err != nil {
 					set = "refused"
 				} else {
@@ -241,10 +251,17 @@ func TestC20(t *testing.T) {
 			}
 		case (len(f) == 5 || len(f) == 6) && f[0] == "srv":
 			var extra []message.OptionID
+			handlerMutates = nil
 			if len(f) == 6 {
-				for _, e := range strings.Split(strings.TrimPrefix(f[5], "x"), ",") {
+				// x<ids>: further options carried by the request; m<ids>: options the handler inserts into the request
+				// object before it responds
+				for _, e := range strings.Split(strings.TrimLeft(f[5], "xm"), ",") {
 					id, _ := strconv.ParseUint(e, 10, 16)
-					extra = append(extra, message.OptionID(id))
+					if strings.HasPrefix(f[5], "m") {
+						handlerMutates = append(handlerMutates, message.OptionID(id))
+					} else {
+						extra = append(extra, message.OptionID(id))
+					}
 				}
 			}
 			v := int64(-1)
